@@ -149,7 +149,7 @@ Definition item_event_name (w : wstate) (t : string) (route : nat) (item : nat) 
   if negb (status_in st item_requirements) then Val base
   else
     match get_staged_task w t route with
-    | None => Exc (mkexn "TypeError" "'NoneType' object is not subscriptable")
+    | None => Val base        (* the task already completed: a late item report is passed on as is *)
     | Some s =>
         match s_items s with
         | None => Exc (mkexn "KeyError" "'items'")
